@@ -138,10 +138,16 @@ class Report:
             "wall_s": round(wall, 2),
             "violations": len(self.violations),
         }
-        evdir = (VERIF / "out" / "evidence_scratch") if os.environ.get("VERIF_NOEVIDENCE") else EVID
-        evdir.mkdir(parents=True, exist_ok=True)
-        (evdir / f"{self.pid}.json").write_text(json.dumps(ev, indent=1))
-        validate_evidence(evdir / f"{self.pid}.json")
+        if getattr(self, "is_replay", False):
+            # a replay of one recorded case is not a check run: it never replaces the property's evidence file
+            evdir = VERIF / "out" / "evidence_scratch"
+            evdir.mkdir(parents=True, exist_ok=True)
+            (evdir / f"{self.pid}.replay.json").write_text(json.dumps(ev, indent=1))
+        else:
+            evdir = (VERIF / "out" / "evidence_scratch") if os.environ.get("VERIF_NOEVIDENCE") else EVID
+            evdir.mkdir(parents=True, exist_ok=True)
+            (evdir / f"{self.pid}.json").write_text(json.dumps(ev, indent=1))
+            validate_evidence(evdir / f"{self.pid}.json")
         print(
             f"[{self.pid}] tier={self.tier} states={self.states} traces={self.traces_validated} "
             f"cases={self.evaluations} distinct={len(self.distinct)} violations={len(self.violations)} "
